@@ -6,23 +6,23 @@
 // code) and reasoned about at `ℝ` by the proof modules.
 //
 // Supported Go subset (anything else: die(), exit status 2 — never skipped silently):
-//   * parameters / locals of type float64, int, bool; `var x T` (zero value), `:=`, `=`, `+= -= *= /=`,
+//   - parameters / locals of type float64, int, bool; `var x T` (zero value), `:=`, `=`, `+= -= *= /=`,
 //     simultaneous assignment `a, b = e1, e2`;
-//   * receiver fields: a field read before it is written becomes a parameter `<recv>_<field>` (also
+//   - receiver fields: a field read before it is written becomes a parameter `<recv>_<field>` (also
 //     `<recv>.<field>[<const>]` ↦ `<recv>_<field>_<k>`); written fields become outputs;
-//   * `if / else if / else` on comparisons (`< <= > >= == !=`, `&& || !`), either with early `return`
+//   - `if / else if / else` on comparisons (`< <= > >= == !=`, `&& || !`), either with early `return`
 //     or as joins over the variables assigned in the branches;
-//   * `return e`, and naked `return` with named results (results of type `error` are ignored; they
+//   - `return e`, and naked `return` with named results (results of type `error` are ignored; they
 //     may only be assigned from calls listed as Opaque);
-//   * `math.Log/Exp/Pow/Sqrt/Abs`, `float64(x)` of a float;
-//   * `[]float64{…}` literals (↦ `List α`), `mat.NewDense(r, c, []float64{…})` with constant r, c
+//   - `math.Log/Exp/Pow/Sqrt/Abs`, `float64(x)` of a float;
+//   - `[]float64{…}` literals (↦ `List α`), `mat.NewDense(r, c, []float64{…})` with constant r, c
 //     (↦ symbolic r×c matrix of let-bound scalars, output as row-major `List α`), `M.At(i, j)` with
 //     constant indices, `M.Apply(func(i, j int, v float64) float64 { return e }, M)` (element-wise
 //     rebinding; the closure may not read M itself);
-//   * calls listed in numSpec.Opaque (`err = m.computeEigens()`): dropped, and named in the doc
+//   - calls listed in numSpec.Opaque (`err = m.computeEigens()`): dropped, and named in the doc
 //     comment of the generated definition; calls listed in numSpec.External
 //     (`a, b, c := countX(...)`): their results become parameters.
-//   * constant sub-expressions are folded exactly as Go folds untyped constants (integer division
+//   - constant sub-expressions are folded exactly as Go folds untyped constants (integer division
 //     truncates when both operands are integer constants) and emitted as ratios of naturals, which
 //     `Float` evaluates to the correctly rounded value (numerator < 2^53, denominator ≤ 10^22
 //     enforced) and which `ring`/`norm_num` handle over ℝ.
@@ -84,7 +84,7 @@ type ntr struct {
 	results  []string // named non-error results, in order
 	unnamed  []bool   // unnamed results: true = float64, false = error
 	errNames map[string]bool
-	fieldsW  []string // receiver fields written, in order
+	fieldsW  []string         // receiver fields written, in order
 	consts   map[string]int64 // compile-time int constants (closure indices)
 	dropped  []string
 	tmp      int
